@@ -154,6 +154,29 @@ inline void countLocators(const QDomElement &e, const QString &path, QMap<QStrin
     }
 }
 
+inline void collectValues(const QDomElement &e, const QString &path, QMap<QString, QStringList> &out)
+{
+    const QString here = path + QChar('/') + localOf(e);
+    auto am = e.attributes();
+    for (int i = 0; i < am.count(); i++) {
+        auto a = am.item(i).toAttr();
+        if (!isNsDecl(a.name())) {
+            out[here + QChar('@') + a.name()] << a.value();
+        }
+    }
+    QString text;
+    for (auto n = e.firstChild(); !n.isNull(); n = n.nextSibling()) {
+        if (n.isElement()) {
+            collectValues(n.toElement(), here, out);
+        } else if (n.isText() || n.isCDATASection()) {
+            text += n.nodeValue();
+        }
+    }
+    if (!text.isEmpty()) {
+        out[here + QStringLiteral("#text")] << text;
+    }
+}
+
 inline QString diffLocus(const QDomElement &root1, const QDomElement &root2)
 {
     QMap<QString, int> a, b;
@@ -179,6 +202,25 @@ inline QString diffLocus(const QDomElement &root1, const QDomElement &root2)
     for (auto it = b.begin(); it != b.end(); ++it) {
         if (!a.contains(it.key())) {
             consider(it.key(), 0, it.value());
+        }
+    }
+    if (!best.isEmpty()) {
+        return best;
+    }
+    // same shape: the shortest locator whose values differ
+    QMap<QString, QStringList> va, vb;
+    for (const auto &c : childElements(root1)) {
+        collectValues(c, QString(), va);
+    }
+    for (const auto &c : childElements(root2)) {
+        collectValues(c, QString(), vb);
+    }
+    for (auto it = va.begin(); it != va.end(); ++it) {
+        auto l1 = it.value(), l2 = vb.value(it.key());
+        l1.sort();
+        l2.sort();
+        if (l1 != l2 && (best.isEmpty() || it.key().size() < best.size() - 1)) {
+            best = QChar('~') + it.key();
         }
     }
     return best.isEmpty() ? QStringLiteral("~values") : best;
